@@ -118,3 +118,36 @@ Lemma len_pad_string mn seg : mn <= len seg -> len (pad_string mn seg) <= len se
 Proof.
   intros H. unfold pad_string. rewrite len_app, len_repeat. pose proof (len_shorten seg). lia.
 Qed.
+
+(* ---------------------------------------------------------------- a reused serializer *)
+Definition binv (s : list N * N) (acc : list N) : Prop := take (snd s) (fst s) = acc /\ snd s = len acc.
+
+Lemma bwrite_inv bytes s acc : binv s acc -> binv (bwrite bytes s) (acc ++ bytes).
+Proof.
+  destruct s as [buf o]. unfold binv, bwrite. cbn [fst snd]. intros [H1 H2]. subst o. rewrite H1.
+  split; [|now rewrite len_app].
+  rewrite <- len_app, app_assoc. apply take_app_exact.
+Qed.
+
+Lemma ser_into_inv m : forall s acc, binv s acc -> binv (ser_into m s) (acc ++ ser m).
+Proof.
+  induction m as [m Hleaf|fs IH] using mf_ind'; intros s acc Hi.
+  - destruct m; try (now apply bwrite_inv).
+    + cbn [ser_into ser]. rewrite app_assoc. now apply bwrite_inv, bwrite_inv.
+    + exfalso. now apply (Hleaf fs).
+  - cbn [ser_into]. rewrite ser_group.
+    revert s acc Hi. induction IH as [|x r Hx _ IHr]; intros s acc Hi; cbn [into_list flat_map].
+    + now rewrite app_nil_r.
+    + rewrite app_assoc. apply IHr, Hx, Hi.
+Qed.
+
+Lemma serialize_into_eq stale m : serialize_into stale m = serialize m.
+Proof.
+  unfold serialize_into, serialize.
+  assert (G : forall l s acc, binv s acc -> binv (into_list ser_into l s) (acc ++ flat_map ser l)).
+  { induction l as [|x r IHr]; intros s acc Hi; cbn [into_list flat_map].
+    - now rewrite app_nil_r.
+    - rewrite app_assoc. apply IHr, ser_into_inv, Hi. }
+  specialize (G m (stale, 0) []). destruct (into_list ser_into m (stale, 0)) as [buf o].
+  destruct G as [G _]; [split; reflexivity|]. exact G.
+Qed.
